@@ -131,7 +131,7 @@ theorem BufInv.preserved : Preserved BufInv where
       case bufPut b n => simp only [execCmd]; split; exact h; exact BufInv.bufPutLoop _ _ _ _ h
       case recStart kind idx => exact BufInv.setRecording _ _ _ h
       case recStop kind idx => exact BufInv.setRecording _ _ _ h
-  resume w p f sig _ h := by
+  resume w p f sig _ _ h := by
     by_cases hm : (frameMask f).bufs = false
     · exact BufInv.of_eq ((resumeFrame_fp w p f sig).2.2.1 hm) h
     · cases f <;> simp [frameMask] at hm
